@@ -122,6 +122,32 @@ def family_nested():
         yield txt("/a") + [grp(txt(w), [grp(txt(x), [grp(txt(y), txt(z))])])]                       # {w,{x,{y,z}}}
 
 
+def family_sibling_groups():
+    """directed: alternatives that are (or contain, at the same place) groups whose lists are prefixes /
+    extensions / permutations / duplicates of each other or differ only in the tail -- exercises the
+    node-equality used by alt.optimize to drop duplicate alternatives (always included in full)."""
+    def g(lst):
+        return grp(*[txt(x) for x in lst])
+    lists = [
+        (["a", "b"], ["a", "b", "ab"]),          # earlier list is a strict prefix of the later one
+        (["a", "b", "ab"], ["a", "b"]),          # later list is a strict prefix of the earlier one
+        (["a", "b"], ["b", "a"]),                # permuted
+        (["a", "b"], ["a", "b"]),                # duplicate groups (must count once)
+        (["a", "b"], ["a", "ab"]),               # differ only in the tail
+        (["", "a"], ["", "a", "b/**"]),          # prefix list with empty alternative and a doublestar tail
+        (["a"], ["a", "b"]),                     # one-element list (collapses) vs its extension
+        (["a", "b"], ["a", "b", ""]),            # extension by the empty alternative
+    ]
+    for l1, l2 in lists:
+        for pre in ["/", "/a/"]:
+            for suf in ["", "/", "b"]:
+                yield txt(pre) + [grp([g(l1)], [g(l2)])] + txt(suf)                              # {{l1},{l2}}
+                yield txt(pre) + [grp(txt("a") + [g(l1)], txt("a") + [g(l2)])] + txt(suf)        # {a{l1},a{l2}}
+                yield txt(pre) + [grp([g(l1)] + txt("b"), [g(l2)] + txt("b"))] + txt(suf)        # {{l1}b,{l2}b}
+            yield txt(pre) + [grp([g(l1)], [g(l2)], [g(l1)])]                                    # three siblings, first = third
+            yield txt(pre) + [grp([grp([g(l1)], txt("b"))], [grp([g(l2)], txt("b"))])]           # one level deeper
+
+
 def family_two_groups():
     pool = ["", "a", "/", "*", "**"]
     for mid in ["", "/", "a", "*"]:
@@ -182,12 +208,14 @@ def build_domain(ctx, rnd):
         fams.append(("three-alts", list(family_three_alts()), 200))
         fams.append(("nested", list(family_nested()), 300))
         fams.append(("two-groups", list(family_two_groups()), 200))
+        fams.append(("sibling-groups", list(family_sibling_groups()), None))
     else:
         fams.append(("plain", list(family_plain(4)), None))
         fams.append(("one-group", list(family_one_group()), 8000))
         fams.append(("three-alts", list(family_three_alts()), 4000))
         fams.append(("nested", list(family_nested()), 4000))
         fams.append(("two-groups", list(family_two_groups()), None))
+        fams.append(("sibling-groups", list(family_sibling_groups()), None))
     seen = set()
     out = []
     sizes = {}
@@ -478,10 +506,11 @@ def run(ctx):
                                      "VERIF_MAX_MISMATCH": 100000}, timeout=2400)
     trows, crows = rt.parallel([table_drv("all", ex_dom, ex_tabs, gl_tabs),
                                 table_drv("canary", [ex_dom[ec]], [e0bad], [g0bad] + gl_tabs[1:])], 2)
+    canary_trouble = []      # presence tests; fatal (exit 2) only when the run found no violation at all, see the end
     if not any(r.get("kind") == "glob" and r["v"] == canary_v for r in crows):
-        raise InfraError("binding canary: a corrupted glob-table row for %r was not reported by the driver" % canary_v)
+        canary_trouble.append("a corrupted glob-table row for %r was not among the differences reported by the driver" % canary_v)
     if not any(r.get("kind") == "count" and r["p"] == canary_p for r in crows):
-        raise InfraError("binding canary: a corrupted expansion row for %r was not reported by the driver" % canary_p)
+        canary_trouble.append("a corrupted expansion row for %r was not among the differences reported by the driver" % canary_p)
     tst = rt.stats_of(trows)
     if tst["patterns"] != len(dom):
         raise InfraError("table driver evaluated %d of %d patterns" % (tst["patterns"], len(dom)))
@@ -527,8 +556,8 @@ def run(ctx):
                          % (rt.q(o["s"]), rt.q(o["spaths"][j]), b["got_m"][j], b["exp_m"][j], b["case"], ctx.seed),
                     replay={"pattern": o["s"], "path": o["spaths"][j], "real": b["got_m"][j], "reference": b["exp_m"][j], "n": o["n"]}))
     want = {("match", 0), ("match", -1), ("set", 0), ("set", -1)}
-    if canary_hit != want:
-        raise InfraError("binding canary: corrupted observations accepted by TracePathPattern: %s" % sorted(want - canary_hit))
+    if not want <= canary_hit:
+        canary_trouble.append("corrupted observations accepted by TracePathPattern: %s" % sorted(want - canary_hit))
     checked, pchecked = len(rrows), len(sets)
     if checked != nrand:
         raise InfraError("I->T: %d random observations requested, %d recorded" % (nrand, checked))
@@ -561,6 +590,10 @@ def run(ctx):
         rank[klass(v)] = rank.get(klass(v), 0) + 1
         order.append((rank[klass(v)], klass(v), v))
     kept = [v for _r, _c, v in sorted(order, key=lambda x: (x[0], x[1]))]
+    if canary_trouble and not kept:
+        raise InfraError("binding canary: " + "; ".join(canary_trouble))
+    if canary_trouble:
+        notes.append("binding canary trouble (not fatal, the run has violations): " + "; ".join(canary_trouble))
     if len(kept) < len(uniq):
         notes.append("%d distinct violation keys in %d classes; the %d shortest keys of every class are reported (see violations_by_class)"
                      % (len(uniq), len(byclass), cap))
